@@ -172,6 +172,16 @@ def impl(case):
                     out["batch_ok"] = False
             if b1.shape != (len(good), case["p"] if case["cost"] != "gcov" else 1):
                 out["shape_ok"] = False
+            # batches with repeated rows: the first interval again at the end, every row twice, one interval three times,
+            # and a fixed shuffle of the rows
+            perm = sorted(range(len(good)), key=lambda k: (k * 7919 + 13) % 104729 % max(len(good), 1))
+            for g in (good + [good[0]], good[:3] + good[:3], [good[len(good) // 2]] * 3, [good[k] for k in perm]):
+                bg = sc.evaluate(np.array(g))
+                if bg.shape[0] != len(g):
+                    out["shape_ok"] = False
+                for k, iv in enumerate(g[:bg.shape[0]]):
+                    if [float(t) for t in bg[k]] != single[iv]:
+                        out["batch_ok"] = False
             # pure batches: all intervals with the same start, all with the same end, all of the same length
             for key in (lambda iv: ("s", iv[0]), lambda iv: ("e", iv[1]), lambda iv: ("len", iv[1] - iv[0])):
                 groups = {}
